@@ -48,15 +48,18 @@ import (
 
 // WireCase is one history of part (e); it is also the replay object ({"replay":{"wire":{...}}}).
 type WireCase struct {
-	Part   string   `json:"part"`                    // e1 | e2
+	Part   string   `json:"part"`                    // e1 | e2 | e3
 	Max    int      `json:"max"`                     // retry.max of the target
 	Warm   bool     `json:"warm,omitempty"`          // e1: an earlier message is answered 200 first and leaves an idle keep-alive connection
 	Empty  bool     `json:"empty_payload,omitempty"` // e1: the message has no payload (request without a body)
-	Policy string   `json:"policy,omitempty"`        // e2: name in wirePolicies
-	Script []string `json:"script"`                  // e1: one behaviour per wire exchange the target sees; e2: one resolver answer per attempt
+	Policy string   `json:"policy,omitempty"`        // e2: name in wirePolicies; e3: name in wireRedirPolicies
+	Script []string `json:"script"`                  // e1: one behaviour per wire exchange the target sees; e2: one resolver answer per attempt; e3: one redirect chain per attempt (grammar of redir_test.go)
 }
 
 const (
+	wireNextHost    = "next.partner.test"
+	wireNext2Host   = "next2.partner.test"
+	wireRefusedHost = "refused.partner.test"
 	wireHostName = "hooks.partner.test"
 	wireOver     = "200c" // what the target does with an exchange beyond the script (only a violating run gets there)
 	wireOverE2   = "allow/200"
@@ -75,6 +78,8 @@ func wireBehaviourClass(b string) string {
 	switch b {
 	case "200", "200b", "200c":
 		return "success"
+	case "404": // e3
+		return "permanent"
 	case "503", "503b", "503c", "rdclose", "drop", "partial":
 		return "retryable" // 5xx, or no answer at all: a network error
 	}
@@ -84,6 +89,7 @@ func wireBehaviourClass(b string) string {
 // wirePolicy: an egress policy that makes the check resolve the host name, with one address it allows and one it
 // denies — by construction of the rule, not by evaluating the policy.
 type wirePolicy struct {
+	Redirects bool // e3
 	Rebind    bool
 	Allow     []string
 	Deny      []string
@@ -98,6 +104,25 @@ var wirePolicies = map[string]wirePolicy{
 	"rebind-loopback":      {Rebind: true, AllowedIP: "93.184.216.34", DeniedIP: "127.0.0.1"},
 	"allow-host+deny-cidr": {Allow: []string{wireHostName}, Deny: []string{"10.0.0.0/8"}, AllowedIP: "93.184.216.34", DeniedIP: "10.1.2.3"},
 	"rebind+allow-cidr":    {Rebind: true, Allow: []string{"93.184.216.0/24"}, AllowedIP: "93.184.216.34", DeniedIP: "198.51.100.7"},
+}
+
+// wireRedirPolicies (e3): redirects on (one: off) with one rule that refuses wireRefusedHost and nothing else - by
+// construction of the rule. The resolver of e3 is a table: wireRefusedHost -> DeniedIP, every other name -> AllowedIP.
+var wireRedirPolicies = map[string]wirePolicy{
+	"r-deny-host":  {Redirects: true, Deny: []string{wireRefusedHost}, AllowedIP: "93.184.216.34", DeniedIP: "93.184.216.35"},
+	"r-deny-cidr":  {Redirects: true, Deny: []string{"10.0.0.0/8"}, AllowedIP: "93.184.216.34", DeniedIP: "10.1.2.3"},
+	"r-allow-list": {Redirects: true, Allow: []string{wireHostName, wireNextHost, wireNext2Host}, AllowedIP: "93.184.216.34", DeniedIP: "93.184.216.35"},
+	"r-rebind":     {Redirects: true, Rebind: true, AllowedIP: "93.184.216.34", DeniedIP: "192.168.7.9"},
+	"r-off":        {Redirects: false, Deny: []string{wireRefusedHost}, AllowedIP: "93.184.216.34", DeniedIP: "93.184.216.35"},
+}
+
+type wireTable struct{ pol wirePolicy }
+
+func (t wireTable) LookupIPAddr(_ context.Context, host string) ([]net.IPAddr, error) {
+	if strings.TrimSuffix(strings.ToLower(host), ".") == wireRefusedHost {
+		return []net.IPAddr{{IP: net.ParseIP(t.pol.DeniedIP)}}, nil
+	}
+	return []net.IPAddr{{IP: net.ParseIP(t.pol.AllowedIP)}}, nil
 }
 
 // resolver answers (e2): allow/<wire behaviour>, deny, err-temp, err-nx, err-timeout, err-deadline, empty, nil-ip
@@ -118,7 +143,7 @@ func wireAnswerKind(sym string) string {
 func wireDSL(max int, pol wirePolicy, url string) string {
 	var b strings.Builder
 	onoff := map[bool]string{false: "off", true: "on"}
-	fmt.Fprintf(&b, "defaults {\n  egress {\n    https_only off\n    redirects off\n    dns_rebind_protection %s\n", onoff[pol.Rebind])
+	fmt.Fprintf(&b, "defaults {\n  egress {\n    https_only off\n    redirects %s\n    dns_rebind_protection %s\n", onoff[pol.Redirects], onoff[pol.Rebind])
 	for _, a := range pol.Allow {
 		fmt.Fprintf(&b, "    allow %q\n", a)
 	}
@@ -160,6 +185,9 @@ type wireEvent struct {
 	Msg  string `json:"msg"`  // X-M header of the request ("" when it was not read)
 	Tag  int    `json:"tag"`  // the Deliver call during which the exchange happened (0: none was in progress)
 	Over bool   `json:"over"` // beyond the script
+
+	Place  string `json:"place,omitempty"`  // e3: Host header + request URI
+	Method string `json:"method,omitempty"` // e3
 }
 
 type wireTarget struct {
@@ -168,6 +196,9 @@ type wireTarget struct {
 
 	mu        sync.Mutex
 	script    []string
+	chains    [][]string       // e3: per Deliver call, what the 1st, 2nd, ... place asked during that call answers
+	places    map[int][]string // e3: the distinct places asked during a Deliver call, in order
+	port      string
 	pos       int
 	conns     int
 	events    []wireEvent
@@ -179,6 +210,9 @@ type wireTarget struct {
 func (s *wireTarget) next() string {
 	s.mu.Lock()
 	defer s.mu.Unlock()
+	if s.chains != nil {
+		return "" // e3 answers by place, after the request has been read
+	}
 	if s.pos < len(s.script) {
 		return s.script[s.pos]
 	}
@@ -194,6 +228,34 @@ func (s *wireTarget) take(conn, req int, read bool, msg string) string {
 	}
 	s.pos++
 	s.events = append(s.events, wireEvent{Beh: b, Conn: conn, Req: req, Read: read, Msg: msg, Tag: int(s.cur.Load()), Over: over})
+	return b
+}
+
+// takeChain (e3): the k-th distinct place asked during a Deliver call answers the k-th segment of that call's chain,
+// every time it is asked (a request the transport repeats on its own gets the same answer again).
+func (s *wireTarget) takeChain(conn, req int, r *http.Request) string {
+	s.mu.Lock()
+	defer s.mu.Unlock()
+	tag := int(s.cur.Load())
+	place := r.Host + r.URL.RequestURI()
+	b, over := wireOver, true
+	if tag >= 1 && tag <= len(s.chains) {
+		k := -1
+		for i, p := range s.places[tag] {
+			if p == place {
+				k = i
+			}
+		}
+		if k < 0 {
+			s.places[tag] = append(s.places[tag], place)
+			k = len(s.places[tag]) - 1
+		}
+		if segs := s.chains[tag-1]; k < len(segs) {
+			b, over = segs[k], false
+		}
+	}
+	s.pos++
+	s.events = append(s.events, wireEvent{Beh: b, Conn: conn, Req: req, Read: true, Msg: r.Header.Get("X-M"), Tag: tag, Over: over, Place: place, Method: r.Method})
 	return b
 }
 
@@ -263,10 +325,37 @@ func (s *wireTarget) handle(c net.Conn, conn int) {
 			return
 		}
 		req.Body.Close()
-		b := s.take(conn, n, true, req.Header.Get("X-M"))
+		var b string
+		if s.chains != nil {
+			b = s.takeChain(conn, n, req)
+		} else {
+			b = s.take(conn, n, true, req.Header.Get("X-M"))
+		}
 		var out string
 		keep := false
+		if st, label, ok := strings.Cut(b, ">"); ok { // e3: a redirect answer
+			loc := ""
+			switch label {
+			case "next":
+				loc = "Location: http://" + wireNextHost + ":" + s.port + "/n\r\n"
+			case "next2":
+				loc = "Location: http://" + wireNext2Host + ":" + s.port + "/n2\r\n"
+			case "same":
+				loc = "Location: /again?x=1\r\n"
+			case "refused":
+				loc = "Location: http://" + wireRefusedHost + ":" + s.port + "/x\r\n"
+			case "garbage":
+				loc = "Location: http://[::1\r\n"
+			case "none":
+			default:
+				panic("c06 wire: unknown location label " + label)
+			}
+			out, keep, b = "HTTP/1.1 "+st+" Redirect\r\n"+loc+"Content-Length: 0\r\n\r\n", true, "redirect"
+		}
 		switch b {
+		case "redirect":
+		case "404":
+			out, keep = "HTTP/1.1 404 Not Found\r\nContent-Length: 0\r\n\r\n", true
 		case "200":
 			out, keep = "HTTP/1.1 200 OK\r\nContent-Length: 0\r\n\r\n", true
 		case "503":
@@ -449,6 +538,14 @@ func runWireOnce(wc WireCase, patience time.Duration) wireObs {
 		}
 		pol, host = p, wireHostName
 	}
+	if wc.Part == "e3" {
+		p, ok := wireRedirPolicies[wc.Policy]
+		if !ok {
+			o.Infra = "unknown policy " + wc.Policy
+			return o
+		}
+		pol, host = p, wireHostName
+	}
 	ln, err := net.Listen("tcp", "127.0.0.1:0")
 	if err != nil {
 		o.Infra = "listen: " + err.Error()
@@ -485,7 +582,13 @@ func runWireOnce(wc WireCase, patience time.Duration) wireObs {
 		script = append(script, wc.Script...)
 	}
 	var cur atomic.Int32
-	tgt := &wireTarget{ln: ln, cur: &cur, script: script, open: map[net.Conn]struct{}{}}
+	tgt := &wireTarget{ln: ln, cur: &cur, script: script, open: map[net.Conn]struct{}{}, port: port}
+	if wc.Part == "e3" {
+		tgt.script, tgt.places, tgt.chains = nil, map[int][]string{}, [][]string{}
+		for _, ch := range wc.Script {
+			tgt.chains = append(tgt.chains, strings.Split(ch, ":"))
+		}
+	}
 	tgt.wg.Add(1)
 	go tgt.serve()
 
@@ -493,7 +596,7 @@ func runWireOnce(wc WireCase, patience time.Duration) wireObs {
 	tr := http.DefaultTransport.(*http.Transport).Clone()
 	tr.Proxy = nil
 	res := &wireResolver{pol: pol}
-	if wc.Part == "e2" {
+	if wc.Part != "e1" {
 		// the name does not exist in any DNS: connections for it end at the loopback target
 		tr.DialContext = func(ctx context.Context, _, _ string) (net.Conn, error) {
 			var d net.Dialer
@@ -502,6 +605,9 @@ func runWireOnce(wc WireCase, patience time.Duration) wireObs {
 	}
 	hd := dispatcher.NewHTTPDeliverer(&http.Client{Transport: tr}, policy)
 	hd.Resolver = res
+	if wc.Part == "e3" {
+		hd.Resolver = wireTable{pol}
+	}
 
 	under := queue.NewMemoryStore(queue.WithDeliveredRetention(24 * time.Hour))
 	rec := newRecorder(under, 1, 0, wc.Max+3)
@@ -634,6 +740,7 @@ func runWireOnce(wc WireCase, patience time.Duration) wireObs {
 type wireStats struct {
 	attempts, requests                                  int
 	refAck, refRetry, refMaxRetries, refPolicy, notSent int
+	refNoRetry, refNon, hopRepeats                      int // e3
 	sentDespiteLookupFailure                            int
 	distinct, outcomes                                  []string
 }
@@ -722,12 +829,29 @@ func judgeWire(wc WireCase, o wireObs) ([]Finding, wireStats) {
 				kind = wireAnswerKind(sym)
 				ctx = fmt.Sprintf("policy %s, resolver answer %q: ", wc.Policy, sym) + ctx
 			}
+			chainIn := ""
+			if wc.Part == "e3" {
+				kind = "chain"
+			}
 			// (1) one attempt = one exchange on the wire
-			if n > 1 {
+			if n > 1 && kind != "chain" {
 				add(pre+":extra-request-on-the-wire", "%s; one recorded attempt put %d requests on the wire", ctx, n)
 			}
 			class := ""
 			switch kind {
+			case "chain":
+				// (1') one attempt = one walk along the redirect chain
+				chain := wireOver
+				if k := calls[len(calls)-1].Seq - 1; k < len(wc.Script) {
+					chain = wc.Script[k]
+				}
+				ctx = fmt.Sprintf("policy %s, chain %s: ", wc.Policy, chain) + ctx
+				var first, repeats int
+				class, chainIn, first, repeats = wireChainRef(wc, o, chain, evs, func(key, format string, a ...any) {
+					add(key, "%s; %s", ctx, fmt.Sprintf(format, a...))
+				})
+				onWire += first - n // the bound below counts requests to the configured target
+				ws.hopRepeats += repeats
 			case "wire", "allow":
 				if n == 0 {
 					if kind == "wire" {
@@ -772,8 +896,33 @@ func judgeWire(wc WireCase, o wireObs) ([]Finding, wireStats) {
 			case "policy":
 				ws.refPolicy++
 				want = "dead/policy_denied"
+			case "permanent":
+				ws.refNoRetry++
+				want = "dead/no_retry"
+			case "nonsuccess": // a 3xx answer: never a success, retried at most while attempt <= retry.max, dead only with a reason
+				ws.refNon++
+				want = got
+				switch {
+				case got == "ack":
+					add("wire:redir:classify:"+chainIn+":treated-as-success", "%s; 1xx/3xx answers are never treated as success", ctx)
+				case got == "nack" && s.Attempt > wc.Max:
+					add("wire:redir:classify:"+chainIn+":retried-beyond-max", "%s; retried although attempt > retry.max", ctx)
+				case s.Action == "dead" && strings.TrimSpace(s.Reason) == "":
+					add("wire:redir:classify:"+chainIn+":dead-without-reason", "%s; dead-lettered without a reason", ctx)
+				}
 			}
-			if class != "" {
+			if class != "" && kind == "chain" {
+				ws.distinct = append(ws.distinct, fmt.Sprintf("e3:%s:%s:%s:%s", wc.Policy, chainIn, within, got))
+				for _, e := range evs[min(1, len(evs)):] {
+					ws.distinct = append(ws.distinct, fmt.Sprintf("e3:hop-request:%s:conn=%v", e.Method, map[bool]string{false: "fresh", true: "reused"}[e.Req > 1]))
+				}
+				ws.outcomes = append(ws.outcomes, got)
+				if got == "unsettled" {
+					add(pre+":settle:missing", "%s; the attempt was never settled", ctx)
+				} else if got != want {
+					add(fmt.Sprintf("wire:redir:classify:%s:%s:got=%s", chainIn, within, got), "%s; want %q", ctx, want)
+				}
+			} else if class != "" {
 				in := sym
 				if kind == "wire" {
 					in = evs[n-1].Beh
@@ -862,9 +1011,101 @@ func judgeWire(wc WireCase, o wireObs) ([]Finding, wireStats) {
 	return out, ws
 }
 
+// wireChainRef (e3): reference walk of one attempt's redirect chain on the wire (same grammar and same reference as
+// part h: redirects off -> the 3xx is the answer; on -> a refused Location is a policy denial and is never requested,
+// the final answer of an allowed chain counts like a direct one, a 3xx nobody followed or without a usable Location
+// stays a 3xx). It returns the reference class, the input class, how often the configured target was requested and
+// how many requests repeated a place already asked during the attempt.
+func wireChainRef(wc WireCase, o wireObs, chain string, evs []wireEvent, add func(key, format string, a ...any)) (class, in string, first, repeats int) {
+	pol := wireRedirPolicies[wc.Policy]
+	mode := map[bool]string{false: "off", true: "on"}[pol.Redirects]
+	_, port, _ := net.SplitHostPort(strings.TrimSuffix(strings.TrimPrefix(o.URL, "http://"), "/hook"))
+	firstPlace := wireHostName + ":" + port + "/hook"
+	refusedPlace := wireRefusedHost + ":" + port + "/x"
+	path := []string{firstPlace}
+	curHost := wireHostName + ":" + port
+	end, endsAtRedirect, decided := "", false, false
+	for _, seg := range strings.Split(chain, ":") {
+		_, label, redirect := strings.Cut(seg, ">")
+		if !redirect {
+			class, end, decided = wireBehaviourClass(seg), seg, true
+			break
+		}
+		endsAtRedirect = true
+		switch {
+		case !pol.Redirects:
+			class, end, decided = "nonsuccess", "3xx", true
+		case label == "none" || label == "garbage":
+			class, end, decided = "nonsuccess", "location-"+label, true
+		case label == "refused":
+			class, end, decided = "policy", "refused", true
+		}
+		if decided {
+			break
+		}
+		switch label {
+		case "next":
+			curHost = wireNextHost + ":" + port
+			path = append(path, curHost+"/n")
+		case "next2":
+			curHost = wireNext2Host + ":" + port
+			path = append(path, curHost+"/n2")
+		case "same":
+			path = append(path, curHost+"/again?x=1")
+		default:
+			panic("c06 wire: unknown location label " + label)
+		}
+		endsAtRedirect = false
+	}
+	if !decided {
+		panic("c06 wire: chain without an end: " + chain)
+	}
+	where := "direct"
+	switch hops := len(path) - 1; {
+	case endsAtRedirect:
+		where = fmt.Sprintf("hop%d", hops+1)
+	case hops > 0:
+		where = fmt.Sprintf("after-hop%d", hops)
+	}
+	// what was asked during the attempt: the distinct places in order, and how often each
+	var asked []string
+	count := map[string]int{}
+	for _, e := range evs {
+		if count[e.Place] == 0 {
+			asked = append(asked, e.Place)
+		}
+		count[e.Place]++
+	}
+	first = count[firstPlace]
+	repeats = len(evs) - len(asked)
+	differs := len(asked) > len(path)
+	for i := 0; i < len(asked) && !differs; i++ {
+		differs = asked[i] != path[i]
+	}
+	switch {
+	case len(evs) == 0:
+		add("wire:redir:nothing-requested", "the attempt requested nothing, not even the configured target")
+	case count[refusedPlace] > 0:
+		add("wire:redir:request-to-refused-location", "%s was requested although the policy refuses it; places asked: %v", refusedPlace, asked)
+	case !pol.Redirects && len(asked) > 1:
+		add("wire:redir:hop-requested-although-redirects-off", "places asked: %v", asked)
+	case differs:
+		add("wire:redir:walk-differs", "places asked %v, want %v in this order", asked, path)
+	case len(asked) < len(path): // an allowed hop nobody followed: the 3xx is the answer of this attempt
+		class, end, where = "nonsuccess", "3xx-not-followed", fmt.Sprintf("hop%d", len(asked))
+	}
+	if first > 1 {
+		add("wire:redir:configured-target-requested-more-than-once-in-one-attempt", "%d requests to %s; places asked: %v", first, firstPlace, asked)
+	}
+	if class == "success" || class == "retryable" || class == "permanent" {
+		end = map[string]string{"success": "2xx", "retryable": end, "permanent": "4xx"}[class]
+	}
+	return class, "redir-" + mode + ":" + where + ":" + end, first, repeats
+}
+
 func (wc WireCase) String() string {
 	s := fmt.Sprintf("retry.max %d, script %v", wc.Max, wc.Script)
-	if wc.Part == "e2" {
+	if wc.Part == "e2" || wc.Part == "e3" {
 		return "policy " + wc.Policy + ", " + s
 	}
 	if wc.Warm {
@@ -878,14 +1119,18 @@ func (wc WireCase) String() string {
 
 func wireSummary(wc WireCase, o wireObs) map[string]any {
 	out := map[string]any{"part": wc.Part, "max": wc.Max, "script": wc.Script, "url": o.URL, "connections_at_target": o.Conns, "lookups": o.Lookups}
-	if wc.Part == "e2" {
+	if wc.Part == "e2" || wc.Part == "e3" {
 		out["policy"] = wc.Policy
 	} else {
 		out["warm"], out["empty_payload"] = wc.Warm, wc.Empty
 	}
 	byTag := map[int][]string{}
 	for _, e := range o.Events {
-		byTag[e.Tag] = append(byTag[e.Tag], fmt.Sprintf("%s(conn%d/req%d)", e.Beh, e.Conn, e.Req))
+		x := fmt.Sprintf("%s(conn%d/req%d)", e.Beh, e.Conn, e.Req)
+		if e.Place != "" {
+			x = fmt.Sprintf("%s %s -> %s(conn%d/req%d)", e.Method, e.Place, e.Beh, e.Conn, e.Req)
+		}
+		byTag[e.Tag] = append(byTag[e.Tag], x)
 	}
 	var l []string
 	for _, c := range o.Calls {
@@ -987,6 +1232,13 @@ func (c *checker) wireRun(wc WireCase) wireObs {
 	r.Add("e_ref_retry", int64(ws.refRetry))
 	r.Add("e_ref_dead_max_retries", int64(ws.refMaxRetries))
 	r.Add("e_ref_dead_policy_denied", int64(ws.refPolicy))
+	if wc.Part == "e3" {
+		r.Add("e3_ref_dead_no_retry", int64(ws.refNoRetry))
+		r.Add("e3_ref_3xx_answers", int64(ws.refNon))
+		r.Add("e3_info_hop_requests_repeated_by_the_transport", int64(ws.hopRepeats))
+		r.Add("ref_dead_no_retry", int64(ws.refNoRetry))
+		r.Add("ref_nonsuccess_1xx_3xx", int64(ws.refNon))
+	}
 	r.Add("e_info_sent_despite_failed_lookup", int64(ws.sentDespiteLookupFailure))
 	r.Add("sends_judged", int64(ws.attempts))
 	r.Add("ref_ack", int64(ws.refAck))
@@ -1106,6 +1358,49 @@ func (c *checker) partWire() {
 		for _, p := range policies {
 			for _, sc := range scripts {
 				cases = append(cases, WireCase{Part: "e2", Max: max, Policy: p, Script: sc})
+			}
+		}
+	}
+	// (e3) redirect chains on the wire: policy x every script of per-attempt chains
+	e3Status := []string{"302", "307"}
+	e3Finals := []string{"200", "503", "rdclose"}
+	e3Policies := []string{"r-deny-host", "r-deny-cidr", "r-rebind", "r-off"}
+	e3Max := []int{1}
+	if r.Thorough() {
+		e3Status = []string{"301", "302", "303", "307", "308"}
+		e3Finals = []string{"200", "200c", "503", "503c", "404", "rdclose", "partial"}
+		e3Policies = []string{"r-deny-host", "r-deny-cidr", "r-allow-list", "r-rebind", "r-off"}
+		e3Max = []int{1, 2}
+	}
+	e3Alpha := append([]string{}, e3Finals...)
+	for _, st := range e3Status {
+		for _, f := range e3Finals {
+			e3Alpha = append(e3Alpha, st+">next:"+f, st+">same:"+f)
+		}
+		e3Alpha = append(e3Alpha, st+">refused", st+">next:307>refused", st+">none", st+">same:"+st+">next2:200")
+	}
+	if r.Thorough() {
+		e3Alpha = append(e3Alpha, "307>garbage", "307>next:302>same:503", "302>next:308>next2:307>refused")
+	}
+	for _, max := range e3Max {
+		for _, p := range e3Policies {
+			pol := wireRedirPolicies[p]
+			// terminal by the statement: an attempt whose reference class is not "retryable"
+			scripts := wireScripts(e3Alpha, func(ch string) bool {
+				segs := strings.Split(ch, ":")
+				for i, seg := range segs {
+					_, label, redirect := strings.Cut(seg, ">")
+					if !redirect {
+						return wireBehaviourClass(seg) != "retryable"
+					}
+					if !pol.Redirects || label == "refused" || label == "none" || label == "garbage" || i == len(segs)-1 {
+						return true
+					}
+				}
+				return true
+			}, max)
+			for _, sc := range scripts {
+				cases = append(cases, WireCase{Part: "e3", Max: max, Policy: p, Script: sc})
 			}
 		}
 	}
